@@ -217,6 +217,39 @@ def run_task(case, tg, idx):
         shutil.rmtree(d, ignore_errors=True)
 
 
+def run_taskhist(case, tg, idx):
+    """the SAME output folder reused for successive outrank_task_generate_data_set calls; data.csv read after each"""
+    import csv
+    d = os.path.join(SCRATCH, "task_%d" % os.getpid())
+    os.makedirs(d, exist_ok=True)
+    cwd = os.getcwd()
+    name = "c19_hist_%d" % idx
+    runs = []
+    try:
+        os.chdir(d)
+        for j, run in enumerate(case["runs"]):
+            try:
+                args = types.SimpleNamespace(generator_type="naive", num_synthetic_features=run["num_features"],
+                                             num_synthetic_rows=run["size"], output_synthetic_df_name=name)
+                ORIG["seed"](run["seed"])
+                with Recording():
+                    tg.outrank_task_generate_data_set(args)
+                    trace = list(TRACE)
+                files = sorted(os.listdir(name))
+                with open(os.path.join(name, "data.csv"), newline="") as f:
+                    rows = list(csv.reader(f))
+                runs.append({"ok": True, "header": rows[0], "rows": rows[1:], "files": files, "trace": trace})
+            except Exception as e:
+                for n in NAMES:
+                    setattr(np.random, n, ORIG[n])
+                return {"ok": False, "run_index": j, "error": "%s: %s" % (type(e).__name__, e),
+                        "tb": traceback.format_exc()[-1200:], "trace": list(TRACE)}
+        return {"ok": True, "runs": runs}
+    finally:
+        os.chdir(cwd)
+        shutil.rmtree(d, ignore_errors=True)
+
+
 results = []
 try:
     from outrank.algorithms.synthetic_data_generators import cc_generator as cc  # noqa: E402
@@ -234,6 +267,8 @@ if import_error is None:
                 results.append(run_gen(case, cc))
             elif kind == "hist":
                 results.append(run_hist(case, cc))
+            elif kind == "taskhist":
+                results.append(run_taskhist(case, tg, i))
             elif kind == "naive":
                 results.append(run_naive(case, gn))
             else:
